@@ -40,7 +40,7 @@ func flagRead(p *core.Prog, v ssa.Value, base, flag string, depth int) bool {
 		if g == nil || len(x.Call.Args) == 0 {
 			return false
 		}
-		if core.FuncName(g) == "fpgo.AtomBool.Get" {
+		if core.IsAtomGet(g) {
 			return core.Path(x.Call.Args[0]) == base+"."+flag
 		}
 		if depth < 2 && p.InRepo(g) && g.Signature.Recv() != nil && core.Path(x.Call.Args[0]) == base && len(g.Params) > 0 {
@@ -324,7 +324,7 @@ func closedFlagSetBefore(p *core.Prog, cl core.ChanOp) string {
 							target = x.Addr
 						}
 					case *ssa.Call:
-						if h := core.Callee(&x.Call); h != nil && core.FuncName(h) == "fpgo.AtomBool.Set" && len(x.Call.Args) == 2 && isTrueConst(x.Call.Args[1]) {
+						if h := core.Callee(&x.Call); h != nil && core.IsAtomSet(h) && len(x.Call.Args) == 2 && isTrueConst(x.Call.Args[1]) {
 							target = x.Call.Args[0]
 						}
 					}
@@ -406,7 +406,7 @@ func flagSetBeforeIn(fn *ssa.Function, at ssa.Instruction, base string) string {
 			}
 		case *ssa.Call:
 			g := core.Callee(&x.Call)
-			if g != nil && core.FuncName(g) == "fpgo.AtomBool.Set" && len(x.Call.Args) == 2 && isTrueConst(x.Call.Args[1]) {
+			if g != nil && core.IsAtomSet(g) && len(x.Call.Args) == 2 && isTrueConst(x.Call.Args[1]) {
 				if fa, ok := x.Call.Args[0].(*ssa.FieldAddr); ok && core.Path(core.FieldOwner(fa)) == cl.Base {
 					found = core.FieldName(fa.X.Type(), fa.Field)
 				}
